@@ -219,10 +219,8 @@ fn rec_error<V: IntoValue>(ety: &str, self_: Option<Vec<u32>>, error: ErrorKind<
     let a = answer();
     let mut ev = json!({"e": "err", "ety": ety, "id": id, "loc": loc_j(location), "det": det, "self": opt_ids(&self_),
                         "ans": if a { "c" } else { "b" }, "out": out});
-    if want {
-        ev["mj"] = json!(mj);
-        ev["mq"] = json!(mq);
-    }
+    ev["mj"] = json!(mj);
+    ev["mq"] = json!(mq);
     push_event(ev);
     (a, out)
 }
